@@ -291,7 +291,7 @@ theorem encodeWithPid_asRef (cb : UInt8) (pid : Pid) :
   simp only [encodeWithPid, VarBytes.asRef, List.cons_append, List.nil_append, ← shift_mask_eq_u16be]
   rfl
 
-theorem blockDecode_eq_decodeBody (debug : Bool) (typ : UInt8) (d : Bool) (q : UInt8) (r : Bool) (n : Nat)
+theorem blockDecode_eq_decodeBody_rt (debug : Bool) (typ : UInt8) (d : Bool) (q : UInt8) (r : Bool) (n : Nat)
     (h : typ ∈ [1, 2, 3, 4, 5, 6, 7, 8, 9, 10, 11]) :
     blockDecode debug ⟨typ, d, q, r, n⟩ = decodeBody debug ⟨typ, d, q, r, n⟩ := by
   simp only [List.mem_cons, List.not_mem_nil, or_false] at h
